@@ -43,7 +43,10 @@ class Insert(ASTNode):
     def to_value(self, val):
         if isinstance(val, ASTNode) :
             return val.to_string()
-        return repr(val)
+        if val is None:
+            return 'NULL'
+        # the same literals as for constants in other parts of a query
+        return Constant(val).to_string()
 
     def to_tree(self, *args, level=0, **kwargs):
         ind = indent(level)
